@@ -26,7 +26,11 @@ LEVEL_TEXT = ("Proved in Lean for every history of start/advance/set_progress/di
               "(a redraw caused by advancing to a step other than the maximum comes at least the minimum interval "
               "after the previous write), reaching the maximum always draws, the last frame after finish shows "
               "current = max, the ANSI line equals the latest frame, plain frames stand on their own lines, a quiet "
-              "output receives nothing.  The model is tied to the code by regenerated tables (formats, defaults, "
+              "output receives nothing.  The hypotheses of these theorems on the configuration and the texts (single bar "
+              "characters, bar width below 2^52, no line break / CR in format, characters and messages, no call raised) "
+              "are decided by the model (hyps_decide; entry c16.run answers hyp) and compared on every case with the same "
+              "conditions read off the real ProgressBar object after its setters ran; the *_dec corollaries take the "
+              "deciders, default_chars_ok proves them for the class defaults of the current source.  The model is tied to the code by regenerated tables (formats, defaults, "
               "_TIME_FORMATS) and by exhaustive small-scope plus random differential runs comparing every stream write.")
 LEVEL_NOTE = ("Trusted: Lean kernel + propext/Quot.sound/Classical.choice, the hand-written model (sampled by the "
               "correspondence), the virtual clock and the terminal emulator of the harness. Formats with style tags "
@@ -35,7 +39,9 @@ LEAN_MODULES = ["Clikit.Props.C16"]
 REQUIRED_THEOREMS = ["Clikit.Props.C16." + n for n in (
     "step_bounds", "bar_width", "percent_exact", "throttle", "throttle_spacing", "max_always_draws",
     "finish_final", "Counter.c16_d18b_old", "ansi_line_latest", "ansi_line_latest_events",
-    "plain_own_line", "plain_single_lines", "quiet_nothing", "set_progress_clamps")]
+    "plain_own_line", "plain_single_lines", "quiet_nothing", "set_progress_clamps",
+    "hyps_decide", "bar_width_dec", "finish_final_dec", "ansi_line_latest_dec", "plain_single_lines_dec",
+    "default_chars_ok", "run_with_message")]
 RULE = ("exhaustive small scope: every call sequence up to length 4 over a pool of 8 (quick) / 11 (thorough) public "
         "calls with clock advances (start, advance(1) after 0 / 1/64 / 1/4 s [/ 2 s], advance(3) after 1/16 s, "
         "set_progress(max), display, clear, finish, set_message), thorough also lengths 5-6 over a 6-call pool and "
@@ -306,6 +312,9 @@ def run_impl(case):
             pb.set_message(case["message"])
         events = []
         setup_writes = list(log)
+        # the hypotheses of the Lean theorems, read off the REAL object after its setters ran (compared with the
+        # model's deciders on the configuration it builds: Props.C16.hyps_decide)
+        hyp = _hyp_of(pb, case)
         for op in case["ops"]:
             clock.t += op["dt"]
             del log[:]
@@ -334,9 +343,26 @@ def run_impl(case):
                 err = type(e).__name__
             events.append({"w": list(log), "t": clock.t, "progress": pb.get_progress(),
                            "max": pb.get_max_steps(), "err": err})
-        return {"events": events, "setup_writes": setup_writes}
+        hyp["no_err"] = all(e["err"] is None for e in events)
+        return {"events": events, "setup_writes": setup_writes, "hyp": hyp}
     finally:
         pbm.time = real_time
+
+
+def _clean(s):
+    return "\n" not in s and "\r" not in s
+
+
+def _hyp_of(pb, case):
+    chars = [pb.get_empty_bar_character(), pb.get_progress_character()]
+    own = pb.bar_char                      # None: derived from the maximum ('=' or the empty-bar character)
+    fmt = pb._internal_format
+    texts = ([case["message"]] if case["message"] is not None else []) + \
+            [o["arg"] for o in case["ops"] if o["op"] == "set_message"]
+    return {"single": all(len(c) == 1 for c in chars) and (own is None or len(own) == 1),
+            "bar_width_ok": 0 <= pb.get_bar_width() < 2 ** 52,
+            "clean_cfg": all(_clean(c) for c in chars) and (own is None or _clean(own)) and (fmt is None or _clean(fmt)),
+            "clean_ops": all(_clean(t) for t in texts)}
 
 
 # --------------------------------------------------------------------------- model
@@ -355,12 +381,12 @@ def model_requests(case):
 
 
 def model_obs(case, answers):
-    return {"events": answers[0]["events"]}
+    return {"events": answers[0]["events"], "hyp": answers[0]["hyp"]}
 
 
 def impl_view(case, obs):
     return {"events": [{"w": e["w"], "progress": e["progress"], "max": e["max"], "err": e["err"]}
-                       for e in obs["events"]]}
+                       for e in obs["events"]], "hyp": obs["hyp"]}
 
 
 # --------------------------------------------------------------------------- oracle
@@ -489,7 +515,7 @@ def _single(case, key, default):
     return v is None or len(v) == 1
 
 
-def _check_frame(case, text, message, ev):
+def _check_frame(case, text, message, ev, hyp=None):
     """text must be one well-formed, truthful frame for the state after the call.
     returns (parsed | None, complaint | None)"""
     complaint = "is not a frame of the configured format"
@@ -515,7 +541,10 @@ def _check_frame(case, text, message, ev):
             want = ev["progress"] * 100 // ev["max"] if ev["max"] > 0 else 0
             if int(p) != want:
                 bad = bad or "shows %s%% for %d/%d (exact: %d%%)" % (p, ev["progress"], ev["max"], want)
-        if _single(case, "bar_char", None) and _single(case, "empty_char", "-") and _single(case, "progress_char", ">"):
+        # "exactly as wide as configured" is demanded when the three bar characters of the real object are single
+        # characters (the hypothesis of Props.C16.bar_width, read off the real bar: obs["hyp"])
+        if (hyp["single"] and hyp["bar_width_ok"]) if hyp is not None else (
+                _single(case, "bar_char", None) and _single(case, "empty_char", "-") and _single(case, "progress_char", ">")):
             width = case["bar_width"] if case["bar_width"] is not None else 28
             for b in parsed["bar"]:
                 if len(b) != width:
@@ -560,7 +589,7 @@ def oracle(case, obs):
                         return "%s: the line is not blank after clear(): %r" % (where, screen[:100])
                     last = None
                 else:
-                    parsed, bad = _check_frame(case, screen, message, ev)
+                    parsed, bad = _check_frame(case, screen, message, ev, obs.get("hyp"))
                     if bad:
                         return "%s: the terminal shows %r which %s" % (where, screen[:120], bad)
                     last, drew = parsed, True
@@ -573,7 +602,7 @@ def oracle(case, obs):
                 ctl = [ch for ch in body if (ord(ch) < 32 and ch != "\n") or ch == "\x7f"]
                 if ctl:
                     return "%s: control code %r on a plain output" % (where, ctl[0])
-                parsed, bad = _check_frame(case, body, message, ev)
+                parsed, bad = _check_frame(case, body, message, ev, obs.get("hyp"))
                 if bad:
                     return "%s: the line %r %s" % (where, body[:120], bad)
                 plain_out += data
